@@ -112,6 +112,49 @@ def temp_function(src, qual):
     return ast.unparse(tree)
 
 
+def inline_function(src, qual):
+    """Behaviour-preserving 'inline temporary': `x = EXPR` immediately followed by a statement that holds the only use of x
+    (x assigned once in the function) -> the statement with EXPR substituted; only when the use is not under a loop/lambda/comprehension."""
+    tree = ast.parse(src)
+    node = _find(tree, qual)
+    if node is None:
+        return None
+    stores, loads = {}, {}
+    for n in ast.walk(node):
+        if isinstance(n, ast.Name):
+            (stores if isinstance(n.ctx, ast.Store) else loads).setdefault(n.id, []).append(n)
+    changed = False
+    for holder in ast.walk(node):
+        for field in ("body", "orelse", "finalbody"):
+            body = getattr(holder, field, None)
+            if not isinstance(body, list):
+                continue
+            i = 0
+            while i + 1 < len(body):
+                a, b = body[i], body[i + 1]
+                ok = isinstance(a, ast.Assign) and len(a.targets) == 1 and isinstance(a.targets[0], ast.Name)
+                if ok:
+                    x = a.targets[0].id
+                    ok = len(stores.get(x, [])) == 1 and len(loads.get(x, [])) == 1 and isinstance(b, (ast.Assign, ast.Return, ast.Expr, ast.AugAssign))
+                if ok:
+                    use = loads[x][0]
+                    inside = [n for n in ast.walk(b) if n is use]
+                    blocked = any(isinstance(n, (ast.Lambda, ast.ListComp, ast.SetComp, ast.DictComp, ast.GeneratorExp)) and any(m is use for m in ast.walk(n)) for n in ast.walk(b))
+                    if inside and not blocked:
+                        class R(ast.NodeTransformer):
+                            def visit_Name(self, n):
+                                return a.value if n is use else n
+                        body[i + 1] = R().visit(b)
+                        del body[i]
+                        changed = True
+                        continue
+                i += 1
+    if not changed:
+        return None
+    ast.fix_missing_locations(tree)
+    return ast.unparse(tree)
+
+
 MODE = {"rename": None, "temp": None}
 
 
@@ -120,7 +163,7 @@ def one(args):
     tmp = None
     try:
         src = open(os.path.join(repo, rel)).read()
-        new = (temp_function if mode == "temp" else rename_function)(src, qual)
+        new = {"temp": temp_function, "inline": inline_function}.get(mode, rename_function)(src, qual)
         if new is None:
             return qual, "skipped", ""
         try:
